@@ -1,22 +1,160 @@
-//! Reference-encoded "kitchen-sink" baselines K1..K5 (see DESIGN §3 C06).
+//! Reference-encoded "kitchen-sink" baselines K1..K5 (DESIGN §3 C06): together with the muxer outputs
+//! and the canned files they make the parser visit every box reader of the crate.
+
+use super::build::*;
+use super::frag::*;
+use super::movie::*;
+use super::tree::*;
 use crate::common::Tier;
 use crate::e3::Baseline;
 
-pub fn baselines(_tier: Tier) -> Vec<Baseline> {
-    vec![]
+fn samples(n: usize) -> Vec<LSample> {
+    (0..n).map(|i| LSample { size: 2 + (i as u32 % 3), delta: 100 + i as u32, cts: if i % 2 == 1 { 7 } else { 0 }, sync: i % 2 == 0 }).collect()
+}
+
+fn itunes_meta(full: bool) -> Node {
+    udta(vec![meta(
+        full,
+        vec![
+            hdlr(0, 0, b"mdir", ""),
+            ilst(vec![ilst_item(&[0xa9, b'n', b'a', b'm'], 1, b"Kitchen sink"), ilst_item(&[0xa9, b'd', b'a', b'y'], 1, b"2024"), ilst_item(b"covr", 13, &[0xff, 0xd8, 0xff, 0xe0, 1, 2]), ilst_item(b"desc", 1, b"every box"), ilst_item(&[0xa9, b't', b'o', b'o'], 1, b"enc")]),
+            free(4),
+        ],
+    )])
+}
+
+/// K1: progressive AVC + AAC, stss, ctts, edts/elst v0, iTunes metadata with all four items, free boxes.
+pub fn k1() -> Vec<u8> {
+    let mut t1 = LTrack::simple(1, Codec::Avc, 1000, samples(4), vec![2, 2]);
+    t1.ctts = Some(0);
+    t1.stss = true;
+    t1.edts = Some(0);
+    let mut t2 = LTrack::simple(2, Codec::Aac, 48000, samples(3), vec![1, 2]);
+    t2.stsc_split = 0;
+    t2.edts = Some(0);
+    let mut m = LMovie::new(1000, vec![t1, t2]);
+    m.moov_extra = vec![itunes_meta(true)];
+    m.top_front = vec![free(8)];
+    m.top_back = vec![free(3)];
+    encode(&m).0
+}
+
+/// K2: HEVC (parameter-set arrays) + TTXT, co64, version-1 headers, elst v1, non-mdir meta with children, 64-bit mdat.
+pub fn k2() -> Vec<u8> {
+    let mut t1 = LTrack::simple(1, Codec::Hevc, 90000, samples(3), vec![1, 2]);
+    t1.co64 = true;
+    t1.ctts = Some(1);
+    t1.samples[1].cts = -5;
+    t1.edts = Some(1);
+    let mut t2 = LTrack::simple(2, Codec::Tx3g, 1000, samples(2), vec![2]);
+    t2.co64 = true;
+    t2.const_size = false;
+    let mut m = LMovie::new(600, vec![t1, t2]);
+    m.force_v1 = true;
+    m.large_mdat = true;
+    m.moov_extra = vec![udta(vec![meta(true, vec![hdlr(0, 0, b"mdta", "Metadata"), Node::leaf(b"keys", vec![0, 0, 0, 0, 0, 0, 0, 1, 0, 0, 0, 12, b'm', b'd', b't', b'a', b'k', b'e', b'y', b'1']), unknown(b"xml ", 9)])]), meta(true, vec![hdlr(0, 0, b"mdir", ""), ilst(vec![])])];
+    encode(&m).0
+}
+
+/// K3: VP9 + mp4a with a `wave` wrapper (QuickTime sound description v1) and a QuickTime-style (version-less) meta.
+pub fn k3() -> Vec<u8> {
+    let t1 = LTrack::simple(1, Codec::Vp9, 30, samples(2), vec![1, 1]);
+    let t2 = LTrack::simple(2, Codec::Aac, 44100, samples(2), vec![2]);
+    let mut m = LMovie::new(1000, vec![t1, t2]);
+    m.moov_extra = vec![itunes_meta(false)];
+    m.mdat_first = true;
+    // replace the plain mp4a entry of track 2 by the wave-wrapped one
+    let mut nodes = nodes(&m);
+    let esds_v = Esds { version: 0, flags: 0, es_id: 2, object_type_indication: 0x40, stream_type: 5, up_stream: false, buffer_size_db: 0x1234, max_bitrate: 96000, avg_bitrate: 64000, audio_object_type: 5, freq_index: 4, frequency: 0, chan_conf: 1, len_bytes: 4 };
+    let audio = Audio { data_reference_index: 1, channelcount: 1, samplesize: 16, samplerate: 44100 << 16, qt_version: 1 };
+    let moov = nodes.iter_mut().find(|n| &n.cc == b"moov").unwrap();
+    let trak2 = moov.children_mut().unwrap().iter_mut().filter(|n| &n.cc == b"trak").nth(1).unwrap();
+    let stsd_n = trak2.child_mut(b"mdia").unwrap().child_mut(b"minf").unwrap().child_mut(b"stbl").unwrap().child_mut(b"stsd").unwrap();
+    stsd_n.children_mut().unwrap()[0] = mp4a_wave(&audio, &esds_v);
+    serialize(&nodes).0
+}
+
+pub fn k4_movie() -> LFragMovie {
+    let run = |track: u32, base: Base, before: bool, psd: bool, cts: Option<u8>, tfdt_v: u8, t0: u64, n: usize, flags_mode: u8| LRun {
+        track_id: track,
+        base,
+        frag_default_duration: if psd { None } else { Some(512) },
+        per_sample_durations: psd,
+        cts_version: cts,
+        data_offset: true,
+        data_before_moof: before,
+        tfdt_version: tfdt_v,
+        base_time: t0,
+        samples: samples(n),
+        flags_mode,
+    };
+    LFragMovie {
+        movie_ts: 1000,
+        tracks: vec![LFragTrack { id: 1, codec: Codec::Avc, timescale: 12800, trex_default_duration: 512 }, LFragTrack { id: 2, codec: Codec::Aac, timescale: 48000, trex_default_duration: 1024 }],
+        fragments: vec![
+            vec![run(1, Base::DefaultBaseIsMoof, false, true, Some(0), 0, 0, 2, 2), run(2, Base::Explicit { at_moof: true }, false, false, None, 1, 0, 2, 1)],
+            vec![run(1, Base::Neither, false, true, Some(1), 1, 1024, 1, 1), run(2, Base::DefaultBaseIsMoof, true, true, None, 0, 2048, 2, 0)],
+        ],
+        mehd: Some(1),
+        large_moof: false,
+    }
+}
+
+fn k4_emsgs() -> Vec<Node> {
+    vec![
+        emsg(&Emsg { version: 0, flags: 0, timescale: 1000, presentation_time: 0, presentation_time_delta: 5, event_duration: 100, id: 1, scheme: "urn:x".into(), value: "v".into(), data: vec![1, 2, 3] }),
+        emsg(&Emsg { version: 1, flags: 0, timescale: 90000, presentation_time: (1u64 << 33) + 1, presentation_time_delta: 0, event_duration: 0xffff_ffff, id: 2, scheme: "urn:scte:scte35:2013:bin".into(), value: "".into(), data: vec![] }),
+    ]
+}
+
+/// K4: fragmented in one stream: mvex/mehd/trex, emsg v0+v1, 2 moof x 2 traf, tfdt v0/v1, trun with every flag.
+pub fn k4() -> Vec<u8> {
+    let m = k4_movie();
+    let mut all = init_nodes(&m);
+    let (media, _) = media_nodes(&m);
+    all.extend(k4_emsgs());
+    all.extend(media);
+    serialize(&all).0
+}
+
+/// K5: (initialization segment, media segment) of the same movie, for read_fragment_header.
+pub fn k5() -> (Vec<u8>, Vec<u8>) {
+    let m = k4_movie();
+    let (media, _) = media_nodes(&m);
+    let mut seg = vec![Node::leaf(b"styp", b"msdh\0\0\0\0msdh".to_vec())];
+    seg.extend(k4_emsgs());
+    seg.extend(media);
+    (serialize(&init_nodes(&m)).0, serialize(&seg).0)
+}
+
+pub fn baselines(tier: Tier) -> Vec<Baseline> {
+    let th = tier == Tier::Thorough;
+    let (i5, s5) = k5();
+    vec![
+        Baseline { name: "K1:avc+aac,stss,ctts,elst0,itunes-meta,free".into(), bytes: k1(), init: None, pairs: th },
+        Baseline { name: "K2:hevc+ttxt,co64,v1-headers,elst1,non-mdir-meta,64-bit-mdat".into(), bytes: k2(), init: None, pairs: th },
+        Baseline { name: "K3:vp9+mp4a(wave),quicktime-meta,mdat-first".into(), bytes: k3(), init: None, pairs: th },
+        Baseline { name: "K4:fragmented,emsg,2moof-x-2traf".into(), bytes: k4(), init: None, pairs: th },
+        Baseline { name: "K5:media-segment-against-init".into(), bytes: s5, init: Some(i5), pairs: th },
+    ]
 }
 
 /// Extra layouts for the cut sweep of C11: (name, bytes).
 pub fn cut_layouts(_tier: Tier) -> Vec<(String, Vec<u8>)> {
-    vec![]
+    // a movie-header-first file whose media data is split over two mdat boxes: cutting between them still opens
+    let t1 = LTrack::simple(1, Codec::Avc, 1000, samples(4), vec![2, 2]);
+    let m = LMovie::new(1000, vec![t1]);
+    let mut nodes = nodes(&m);
+    nodes.push(free(6));
+    vec![("K1 (moov first, metadata, trailing free)".into(), k1()), ("K4 (fragmented, emsg)".into(), k4()), ("moov first + trailing free".into(), serialize(&nodes).0), ("K3 (mdat first, QuickTime meta)".into(), k3())]
 }
 
 /// Extra files for the fault sweep of C10: (name, bytes).
 pub fn fault_files(_tier: Tier) -> Vec<(String, Vec<u8>)> {
-    vec![]
+    vec![("K1".into(), k1()), ("K2".into(), k2()), ("K3".into(), k3()), ("K4".into(), k4())]
 }
 
 /// Extra files for the reader state-graph search of C15.
 pub fn c15_files(_tier: Tier) -> Vec<(String, Vec<u8>)> {
-    vec![]
+    vec![("K1 (metadata)".into(), k1()), ("K4 (fragmented, two tracks)".into(), k4())]
 }
